@@ -1,5 +1,6 @@
 import MioModel.Lemmas.ResourceId
 import MioModel.Lemmas.Net
+import MioModel.Props.C12
 /-! # C14 — Endpoints identify one connection forever; ids are never reused (id layout part)
 
 Bit layout of `ResourceId`, the poll token, the id generator, the transport/driver tables.
@@ -173,5 +174,21 @@ theorem stale_endpoint_rejected (s s' s1 : St) (acts : List Act) (id : Nat) (a :
   have hlive : isLive s' id = false := by simpa [isLive] using hnl
   simp only [step, hlive, Bool.false_eq_true, if_false, Option.some.injEq] at hs; subst hs
   exact ⟨by simp [record, showStatus], rfl, by simpa [record] using hnl⟩
+
+open Mio.Net in
+/-- every event carries an id the registry handed out before the event (never a future or foreign one) -/
+theorem event_ids_were_handed_out (s : St) (h : Net.Reachable s) (e : Net.Ev) (he : e ∈ s.log) (id : Nat)
+    (hid : e.rid = some id) : id < s.nextRemote :=
+  (Net.reachable_inv s h).logIds e he id hid
+
+/-- datagram events (model M8): the endpoint of a `Message` event on socket `j` names `j` itself and
+the address of the socket whose successful send produced exactly these bytes — for a listener the
+sender's own address (not the address the datagram arrived on), for a connected socket its peer -/
+theorem datagram_event_names_receiver_and_sender (w : Udp.World) (h : Udp.Reachable w) (j : Nat)
+    (s : Udp.Sock) (hj : w.socks[j]? = some s) (e : Udp.Ev) (he : e ∈ s.events) :
+    e.ep.rid = j ∧ ∃ r ∈ w.log, r.dst = j ∧ r.src = e.ep.addr ∧ r.status = .sent ∧
+      (Udp.cutK s.kind ⟨r.src, r.data⟩).data = e.data := by
+  obtain ⟨h1, _, r, hr, h2, h3, h4, h5⟩ := C12.event_attributed_to_its_sender w h j s hj e he
+  exact ⟨h1, r, hr, h2, h3, h5, h4⟩
 
 end Mio.C14
